@@ -5,7 +5,7 @@
    Only statements here, each closed by [exact] of a lemma proved elsewhere, with Print Assumptions. *)
 From Coq Require Import List NArith Bool.
 Import ListNotations.
-Require Import Parser TagSpec TagProofs TagRun Pipe.
+Require Import Parser TagSpec TagProofs TagUtf8 TagScanText TagPipeline TagReject TagLines TagRun Pipe Drivers SFetch.
 Require Import SBase SPrim SDir.
 Open Scope N_scope.
 
@@ -107,23 +107,95 @@ Proof. exact state_machine_tags. Qed.
 Print Assumptions C16_table_stable.
 
 (* ---------------------------------------------------------------------------------------------- *)
-(* (d) Percent-decoding.  For EVERY byte sequence the RFC 3629 decoder of the specification accepts   *)
-(*     (1 to 4 bytes, shortest form, no surrogates, at most U+10FFFF), spelled as escapes with hex     *)
-(*     digits of either case and followed by anything: the scanner model returns that character and    *)
-(*     consumes exactly the 3n characters of the escapes.  No bound on the code point.                 *)
+(* (d) Percent-decoding is STRICT UTF-8 (RFC 3629), in both directions, for every input.             *)
+(*     Specification: [utf8_decode]/[utf8_encode]/[take_escaped_char] of Spec/TagSpec.v.              *)
 (* ---------------------------------------------------------------------------------------------- *)
+
+(* (d0) the specification itself is strict: a byte sequence decodes to c iff c is a Unicode scalar value
+   (U+0000..U+D7FF, U+E000..U+10FFFF) and the sequence is its UTF-8 encoding — hence shortest form only, no
+   surrogates, nothing above U+10FFFF; decoder and encoder are inverse bijections *)
+Theorem C16_utf8_strict : forall bs c,
+  utf8_decode bs = Some c <-> (is_scalar_value c = true /\ bs = utf8_encode c).
+Proof. exact utf8_decode_strict. Qed.
+Print Assumptions C16_utf8_strict.
+
+Theorem C16_utf8_round_trip : forall c, is_scalar_value c = true -> utf8_decode (utf8_encode c) = Some c.
+Proof. exact utf8_round_trip. Qed.
+Print Assumptions C16_utf8_round_trip.
+
+Theorem C16_utf8_decode_injective : forall bs1 bs2 c,
+  utf8_decode bs1 = Some c -> utf8_decode bs2 = Some c -> bs1 = bs2.
+Proof. exact utf8_decode_injective. Qed.
+Print Assumptions C16_utf8_decode_injective.
+
+Theorem C16_utf8_encode_injective : forall c1 c2,
+  is_scalar_value c1 = true -> is_scalar_value c2 = true -> utf8_encode c1 = utf8_encode c2 -> c1 = c2.
+Proof. exact utf8_encode_injective. Qed.
+Print Assumptions C16_utf8_encode_injective.
+
+(* the specification's reader of one escaped character at the front of a text, in the words of bytes:
+   [spells es bs] = the text [es] is the bytes [bs] written as %XY escapes (hex digits of either case) *)
+Theorem C16_escaped_char_spec : forall l c r,
+  take_escaped_char l = Some (c, r) <-> exists es bs, l = es ++ r /\ spells es bs /\ utf8_decode bs = Some c.
+Proof. exact take_escaped_char_spells. Qed.
+Print Assumptions C16_escaped_char_spec.
+
+(* (d1) EXACTNESS.  On every scanner state over the string back-end — whatever the text — the model's
+   scan_uri_escapes returns exactly the character the specification reads at the front of the text, having consumed
+   exactly its escapes (3 characters each), and it reports one of its four errors (sites 50..53: invalid escape,
+   incorrect leading byte, incorrect trailing byte, invalid code point) at the given mark exactly when the
+   specification has no reading.  It never runs out of fuel and never panics. *)
+Theorem C16_percent_exact : forall mk s,
+  let l : list N := si_chars (sc_in s) in
+  match take_escaped_char l with
+  | Some (c, r) => scan_uri_escapes str_ops mk s = SBase.Ok (c, eats (escaped_len l) s) /\ r = skipn (3 * escaped_len l) l
+  | None => exists site, scan_uri_escapes str_ops mk s = SBase.Err site mk /\ 50 <= site <= 53
+  end.
+Proof. exact scan_uri_escapes_exact. Qed.
+Print Assumptions C16_percent_exact.
+
+(* soundness (the direction that was FALSE before commit 990db80): whatever the model accepts is a reading of the
+   specification *)
+Theorem C16_percent_sound : forall mk s c s',
+  scan_uri_escapes str_ops mk s = SBase.Ok (c, s') ->
+  take_escaped_char (si_chars (sc_in s)) = Some (c, si_chars (sc_in s')) /\
+  s' = eats (escaped_len (si_chars (sc_in s))) s.
+Proof. exact scan_uri_escapes_sound. Qed.
+Print Assumptions C16_percent_sound.
+
+Theorem C16_percent_total : forall mk s,
+  (exists c n, (1 <= n <= 4)%nat /\ scan_uri_escapes str_ops mk s = SBase.Ok (c, eats n s)) \/
+  (exists site, scan_uri_escapes str_ops mk s = SBase.Err site mk /\ 50 <= site <= 53).
+Proof. exact scan_uri_escapes_total. Qed.
+Print Assumptions C16_percent_total.
+
+(* (d2) STRICT DECODING at the level of bytes, both directions, for EVERY byte sequence: its escapes (followed by
+   anything) are accepted as a whole iff the sequence is the UTF-8 encoding of a Unicode scalar value, and then the
+   result is that value.  (This replaces C16_strict_decoding_refuted: %C0%AF, %E0%80%AF, %F0%80%80%AF were read as '/'.) *)
+Theorem C16_strict_decoding : forall es bs rest mk s c,
+  spells es bs -> si_chars (sc_in s) = es ++ rest ->
+  (scan_uri_escapes str_ops mk s = SBase.Ok (c, eats (length bs) s)
+   <-> (is_scalar_value c = true /\ bs = utf8_encode c)).
+Proof. exact scan_uri_escapes_strict. Qed.
+Print Assumptions C16_strict_decoding.
+
+(* ... error otherwise: a byte sequence none of whose prefixes is such an encoding (with no further escape after it) *)
+Theorem C16_percent_rejects : forall es bs rest mk s,
+  spells es bs -> si_chars (sc_in s) = es ++ rest -> take_escape rest = None ->
+  (forall k, utf8_decode (firstn k bs) = None) ->
+  exists site, scan_uri_escapes str_ops mk s = SBase.Err site mk /\ 50 <= site <= 53.
+Proof. exact scan_uri_escapes_rejects. Qed.
+Print Assumptions C16_percent_rejects.
+
+(* completeness in the earlier words: for EVERY byte sequence the decoder accepts, spelled as escapes with hex
+   digits of either case and followed by anything, the model returns that character and consumes the 3n characters *)
 Theorem C16_percent_decoding : forall bs c es rest mk s,
   utf8_decode bs = Some c -> spells es bs -> si_chars (sc_in s) = es ++ rest ->
   scan_uri_escapes str_ops mk s = SBase.Ok (c, eats (length bs) s).
 Proof. exact scan_uri_escapes_decodes. Qed.
 Print Assumptions C16_percent_decoding.
 
-(* every Unicode scalar value (all of U+0000..U+D7FF, U+E000..U+10FFFF) has such an encoding ... *)
-Theorem C16_utf8_round_trip : forall c, is_scalar_value c = true -> utf8_decode (utf8_encode c) = Some c.
-Proof. exact utf8_round_trip. Qed.
-Print Assumptions C16_utf8_round_trip.
-
-(* ... hence: the percent-encoded UTF-8 form of every scalar value is decoded back to it *)
+(* hence: the percent-encoded UTF-8 form of every scalar value is decoded back to it *)
 Theorem C16_percent_round_trip : forall c rest mk s,
   is_scalar_value c = true -> si_chars (sc_in s) = percent_encode c ++ rest ->
   scan_uri_escapes str_ops mk s = SBase.Ok (c, eats (length (utf8_encode c)) s).
@@ -145,13 +217,6 @@ Theorem C16_percent_spec : forall l c r mk s,
 Proof. exact scan_uri_escapes_meets_spec. Qed.
 Print Assumptions C16_percent_spec.
 
-(* The converse is FALSE for the faithful model: it (like the code) also accepts sequences that are not in
-   shortest form, which RFC 3629 forbids: %C0%AF is read as '/'. *)
-Theorem C16_strict_decoding_refuted :
-  exists bs es c, utf8_decode bs = None /\ spells es bs /\ model_decodes es = Some c.
-Proof. exact overlong_accepted_by_model. Qed.
-Print Assumptions C16_strict_decoding_refuted.
-
 (* ---------------------------------------------------------------------------------------------- *)
 (* (e) The hypotheses of (a) and (b) hold for everything the scanner model produces, over any input  *)
 (*     back-end: a tag token has a handle of one of the four shapes; a directive token is a          *)
@@ -166,6 +231,233 @@ Theorem C16_scanner_directive_shape : forall (I : Type) (ops : InputOps I) F s s
   scan_directive ops F s = SBase.Ok ((sp, t), s') -> is_directive_tok t = true /\ dir_tok_ok t.
 Proof. exact @scan_directive_shape. Qed.
 Print Assumptions C16_scanner_directive_shape.
+
+(* ---------------------------------------------------------------------------------------------- *)
+(* (g) TEXT level: scanner, and scanner + parser composed, on tag texts — for EVERY such text.         *)
+(*     Texts and character classes are those of Spec/TagSpec.v section 4 (YAML 1.2.2 productions):     *)
+(*       tag_text ttext h sfx            ttext is one of  !<uri>  !name!suffix  !!suffix  !suffix  !     *)
+(*                                       built from tag/uri characters and percent-escapes; h is the      *)
+(*                                       handle the scanner reports and sfx = percent_decode of the text  *)
+(*       tag_directive_text line dh p    line = "%TAG" blanks handle blanks prefix LF, p = percent_decode *)
+(*       doc_line ttext                  = "--- " ttext " x"  (end of input)                              *)
+(*     [st l lk m w s] is the scanner state s with text l, lookahead counter lk, mark m and                *)
+(*     leading-whitespace flag w (Proofs/TagScanText.v).                                                   *)
+(* ---------------------------------------------------------------------------------------------- *)
+
+(* the character classes the model uses (generated from parser/src/char_traits.rs on every run) ARE the
+   productions of the YAML specification, for every code point *)
+Theorem C16_classes : forall c,
+  is_tag_char c = ns_tag_char c /\ is_uri_char c = ns_uri_char c /\ is_alpha c = handle_name_char c
+  /\ is_blank c = s_white c.
+Proof. exact char_classes. Qed.
+Print Assumptions C16_classes.
+
+(* the scanner half for tag tokens: every tag text, followed by what may follow a tag (blank, break, end of
+   input; a flow indicator inside a flow collection), is scanned as ONE TTag token with the handle and the DECODED
+   suffix; exactly the text is consumed; any fuel larger than the text is enough *)
+Theorem C16_scan_tag_text : forall F ttext h sfx rest lk m w s,
+  tag_text ttext h sfx -> (length ttext < F)%nat -> tag_end (sc_flow_level s) (hd 0 rest) = true ->
+  exists lk', (lk <= lk')%nat /\
+    scan_tag str_ops F (st (ttext ++ rest) lk m w s)
+    = SBase.Ok ((mkspan m (adv (N.of_nat (length ttext)) m), TTag h sfx),
+                st rest lk' (adv (N.of_nat (length ttext)) m) false s).
+Proof. exact scan_tag_text. Qed.
+Print Assumptions C16_scan_tag_text.
+
+(* the scanner half for %TAG lines: ONE TTagDirective token with the handle and the DECODED prefix; the line and
+   its line feed are consumed *)
+Theorem C16_scan_directive_text : forall F line dh p rest lk m w s,
+  tag_directive_text line dh p -> (length line < F)%nat ->
+  exists lk', (lk <= lk')%nat /\
+    scan_directive str_ops F (st (line ++ rest) lk m w s)
+    = SBase.Ok ((mkspan m (adv (N.of_nat (length line - 1)) m), TTagDirective dh p),
+                st rest lk' (nlm (adv (N.of_nat (length line - 1)) m)) true s).
+Proof. exact scan_directive_text. Qed.
+Print Assumptions C16_scan_directive_text.
+
+(* the whole scanner (scan_str: fetch_next_token, simple keys, indentation, document markers, plain scalar, stream
+   end) on the two-line text: exactly these six tokens, with their spans *)
+Theorem C16_token_stream : forall line dh p ttext h sfx,
+  tag_directive_text line dh p -> tag_text ttext h sfx ->
+  let md := nlm (adv (N.of_nat (length line - 1)) m1) in
+  scan_str (line ++ doc_line ttext)
+  = ((span_empty m1, TStreamStart)
+     :: (mkspan m1 (adv (N.of_nat (length line - 1)) m1), TTagDirective dh p)
+     :: doc_tokens md ttext h sfx, SEnded).
+Proof. exact token_stream_directive_document. Qed.
+Print Assumptions C16_token_stream.
+
+Theorem C16_token_stream_plain : forall ttext h sfx,
+  tag_text ttext h sfx ->
+  scan_str (doc_line ttext) = ((span_empty m1, TStreamStart) :: doc_tokens m1 ttext h sfx, SEnded).
+Proof. exact token_stream_plain_document. Qed.
+Print Assumptions C16_token_stream_plain.
+
+(* SCANNER + PARSER: the tag reported for the node of "--- <tag> x" is the specification's [expand] of the
+   scanned (handle, decoded suffix) against the default table; an undeclared named handle is the error 20
+   ("the handle wasn't declared") at the tag.  [tag_outcome (Some r) _ = ([Some r], PDone)],
+   [tag_outcome None m = ([], PParseErr 20 m)]. *)
+Theorem C16_text_plain_document : forall keep ttext h sfx,
+  tag_text ttext h sfx ->
+  tags_of_run keep (doc_line ttext) = tag_outcome (expand [] h sfx) (tag_mark []).
+Proof. exact text_plain_document. Qed.
+Print Assumptions C16_text_plain_document.
+
+(* ... and after a %TAG line, against the table of that directive *)
+Theorem C16_text_directive_document : forall keep line dh p ttext h sfx,
+  tag_directive_text line dh p -> tag_text ttext h sfx ->
+  tags_of_run keep (line ++ doc_line ttext) = tag_outcome (expand [(dh, p)] h sfx) (tag_mark line).
+Proof. exact text_directive_document. Qed.
+Print Assumptions C16_text_directive_document.
+
+(* THE text-level statement: "%TAG !name! prefix\n--- !name!suffix x" resolves to
+   (percent_decode prefix, percent_decode suffix) — for all such texts (and "!!" when name is empty) *)
+Theorem C16_text_named_handle_resolves : forall keep line name p suffix t,
+  tag_directive_text line (named_handle name) p ->
+  tag_text (named_text name suffix) (named_handle name) t ->
+  tags_of_run keep (line ++ doc_line (named_text name suffix)) = ([Some (p, t)], PDone).
+Proof. exact text_named_handle_resolves. Qed.
+Print Assumptions C16_text_named_handle_resolves.
+
+(* "%TAG ! prefix\n--- !suffix x": the redefined primary handle *)
+Theorem C16_text_primary_handle_resolves : forall keep line p suffix t,
+  tag_directive_text line [bang] p -> tag_text (local_text suffix) [bang] t ->
+  tags_of_run keep (line ++ doc_line (local_text suffix)) = ([Some (p, t)], PDone).
+Proof. exact text_primary_handle_resolves. Qed.
+Print Assumptions C16_text_primary_handle_resolves.
+
+(* ---------------------------------------------------------------------------------------------- *)
+(* (g') ANY NUMBER of %TAG lines, at text level: all %TAG directives of a document are in force            *)
+(*      together, a handle may be declared only once per document.  [lines] are the texts of the lines,    *)
+(*      [ds] the directives they denote (Forall2 directive_line_text), [decls] is the specification's      *)
+(*      table builder (part 1 of Spec/TagSpec.v).  [line_start lines j] is the mark where the j-th line     *)
+(*      begins, [tag_mark_lines lines] where the tag of the document line begins.                           *)
+(* ---------------------------------------------------------------------------------------------- *)
+Theorem C16_text_directives_document : forall keep lines ds ttext h sfx,
+  Forall2 directive_line_text lines ds -> tag_text ttext h sfx ->
+  tags_of_run keep (concat lines ++ doc_line ttext)
+  = match decls ds with
+    | Declared d => tag_outcome (expand d h sfx) (tag_mark_lines lines)
+    | DuplicateHandle j => ([], PParseErr 21 (line_start lines j))
+    | DuplicateYaml j => ([], PParseErr 2 (line_start lines j))
+    end.
+Proof. exact text_directives_document. Qed.
+Print Assumptions C16_text_directives_document.
+
+(* whichever of the lines declares the handle of the tag, its (decoded) prefix is the one used *)
+Theorem C16_text_any_line_resolves : forall keep lines ds name p suffix t d,
+  Forall2 directive_line_text lines ds -> decls ds = Declared d -> declared_prefix (named_handle name) ds = Some p ->
+  tag_text (named_text name suffix) (named_handle name) t ->
+  tags_of_run keep (concat lines ++ doc_line (named_text name suffix)) = ([Some (p, t)], PDone).
+Proof. exact text_any_line_resolves. Qed.
+Print Assumptions C16_text_any_line_resolves.
+
+(* a handle declared twice: the error is reported where the second declaration begins *)
+Theorem C16_text_duplicate_handle : forall keep lines ds ttext h sfx j,
+  Forall2 directive_line_text lines ds -> decls ds = DuplicateHandle j -> tag_text ttext h sfx ->
+  tags_of_run keep (concat lines ++ doc_line ttext) = ([], PParseErr 21 (line_start lines j)).
+Proof. exact text_duplicate_handle. Qed.
+Print Assumptions C16_text_duplicate_handle.
+
+(* "%TAG !a! tag:a,\n%TAG !b! tag:b,\n--- !b!y x": the SECOND line is in force (through the theorem) *)
+Example ex_text_two_lines :
+  tags_of_run false (concat [[37;84;65;71;32;33;97;33;32;116;97;103;58;97;44;10]; [37;84;65;71;32;33;98;33;32;116;97;103;58;98;44;10]]
+                     ++ doc_line (named_text [98] [121]))
+  = ([Some ([116;97;103;58;98;44], [121])], PDone).
+Proof.
+  apply (C16_text_any_line_resolves false _ [DTag [33;97;33] [116;97;103;58;97;44]; DTag [33;98;33] [116;97;103;58;98;44]]
+           [98] [116;97;103;58;98;44] [121] [121]
+           [([33;98;33], [116;97;103;58;98;44]); ([33;97;33], [116;97;103;58;97;44])]).
+  - repeat constructor.
+    + apply (tdt [32] [33;97;33] [32] [116;97;103;58;97;44] [116;97;103;58;97;44]); try reflexivity.
+      right. exists [97]. split; reflexivity.
+    + apply (tdt [32] [33;98;33] [32] [116;97;103;58;98;44] [116;97;103;58;98;44]); try reflexivity.
+      right. exists [98]. split; reflexivity.
+  - reflexivity.
+  - reflexivity.
+  - apply (tt_named [98] [121] [121]); reflexivity.
+Qed.
+
+(* ---------------------------------------------------------------------------------------------- *)
+(* (h) TEXT level, the other direction: tag texts (and %TAG prefixes) of the right characters whose     *)
+(*     escapes have NO decoding — invalid escape, incorrect leading/trailing byte, surrogate, above      *)
+(*     U+10FFFF, NON-SHORTEST FORM — are scanner errors (sites 50..53) at the beginning of the tag /      *)
+(*     of the directive, for every such text; nothing is delivered for the node.                          *)
+(* ---------------------------------------------------------------------------------------------- *)
+Theorem C16_scan_tag_text_rejects : forall F ttext rest lk m w s,
+  bad_tag_text ttext -> (length ttext < F)%nat -> tag_end (sc_flow_level s) (hd 0 rest) = true ->
+  exists site, scan_tag str_ops F (st (ttext ++ rest) lk m w s) = SBase.Err site m /\ 50 <= site <= 53.
+Proof. exact scan_tag_text_rejects. Qed.
+Print Assumptions C16_scan_tag_text_rejects.
+
+Theorem C16_text_plain_document_rejects : forall keep ttext,
+  bad_tag_text ttext ->
+  exists site, 50 <= site <= 53 /\ tags_of_run keep (doc_line ttext) = ([], PScanErr site (tag_mark [])).
+Proof. exact text_plain_document_rejects. Qed.
+Print Assumptions C16_text_plain_document_rejects.
+
+Theorem C16_text_directive_document_rejects : forall keep line dh p ttext,
+  tag_directive_text line dh p -> bad_tag_text ttext ->
+  exists site, 50 <= site <= 53 /\ tags_of_run keep (line ++ doc_line ttext) = ([], PScanErr site (tag_mark line)).
+Proof. exact text_directive_document_rejects. Qed.
+Print Assumptions C16_text_directive_document_rejects.
+
+Theorem C16_text_bad_directive_rejects : forall keep text,
+  bad_tag_directive_text text ->
+  exists site, 50 <= site <= 53 /\ tags_of_run keep text = ([], PScanErr site m1).
+Proof. exact text_bad_directive_rejects. Qed.
+Print Assumptions C16_text_bad_directive_rejects.
+
+(* the witness of the former finding, now through the theorem: "--- !e%C0%AF x" is a scanner error at the tag *)
+Example ex_text_overlong_rejected :
+  exists site, 50 <= site <= 53 /\
+    tags_of_run false (doc_line [33;101;37;67;48;37;65;70]) = ([], PScanErr site {| m_index := 4; m_line := 1; m_col := 4 |}).
+Proof. exact (C16_text_plain_document_rejects false _ (btt_local [101;37;67;48;37;65;70] eq_refl eq_refl)). Qed.
+
+(* "%TAG !e! tag:%C0%AF\n--- a": the directive is rejected where it starts, whatever follows *)
+Example ex_text_bad_directive :
+  exists site, 50 <= site <= 53 /\
+    tags_of_run true ([37;84;65;71] ++ [32] ++ [33;101;33] ++ [32] ++ [116;97;103;58;37;67;48;37;65;70] ++ [10;45;45;45;32;97])
+    = ([], PScanErr site {| m_index := 0; m_line := 1; m_col := 0 |}).
+Proof.
+  apply C16_text_bad_directive_rejects.
+  apply (btdt [32] [33;101;33] [32] [116;97;103;58;37;67;48;37;65;70] [10;45;45;45;32;97]); try reflexivity.
+  right. exists [101]. split; reflexivity.
+Qed.
+
+(* the hypotheses are satisfiable: "%TAG !e! tag:%C3%A9,\n" declares !e! as "tag:é,", "!e!caf%c3%a9" is a tag
+   text with suffix "café"; the theorem then gives what direct evaluation of the pipeline gives *)
+Example ex_text_hypotheses :
+  tag_directive_text [37;84;65;71;32;33;101;33;32;116;97;103;58;37;67;51;37;65;57;44;10] [33;101;33] [116;97;103;58;233;44]
+  /\ tag_text [33;101;33;99;97;102;37;99;51;37;97;57] [33;101;33] [99;97;102;233].
+Proof.
+  split.
+  - apply (tdt [32] [33;101;33] [32] [116;97;103;58;37;67;51;37;65;57;44] [116;97;103;58;233;44]); try reflexivity.
+    right. exists [101]. split; reflexivity.
+  - apply (tt_named [101] [99;97;102;37;99;51;37;97;57] [99;97;102;233]); reflexivity.
+Qed.
+Example ex_text_instance :
+  tags_of_run false ([37;84;65;71;32;33;101;33;32;116;97;103;58;37;67;51;37;65;57;44;10]
+                     ++ doc_line [33;101;33;99;97;102;37;99;51;37;97;57])
+  = ([Some ([116;97;103;58;233;44], [99;97;102;233])], PDone).
+Proof.
+  exact (C16_text_named_handle_resolves false _ [101] _ [99;97;102;37;99;51;37;97;57] _
+           (proj1 ex_text_hypotheses) (proj2 ex_text_hypotheses)).
+Qed.
+Example ex_text_instance_computed :
+  tags_of_run false ([37;84;65;71;32;33;101;33;32;116;97;103;58;37;67;51;37;65;57;44;10]
+                     ++ doc_line [33;101;33;99;97;102;37;99;51;37;97;57])
+  = ([Some ([116;97;103;58;233;44], [99;97;102;233])], PDone).
+Proof. vm_compute. reflexivity. Qed.
+(* an undeclared handle, through the theorem: "--- !u!x x" *)
+Example ex_text_undeclared :
+  tags_of_run false (doc_line [33;117;33;120]) = ([], PParseErr 20 {| m_index := 4; m_line := 1; m_col := 4 |}).
+Proof.
+  exact (C16_text_plain_document false _ [33;117;33] [120] (tt_named [117] [120] [120] eq_refl eq_refl eq_refl eq_refl)).
+Qed.
+(* an overlong escape is not a tag text: there is no decoding *)
+Example ex_text_overlong_not_a_tag : percent_decode [101;37;67;48;37;65;70] = None.
+Proof. vm_compute. reflexivity. Qed.
 
 (* ---------------------------------------------------------------------------------------------- *)
 (* Examples: the whole pipeline (scanner + parser model) on concrete streams; the specification is    *)
@@ -224,6 +516,15 @@ Proof. reflexivity. Qed.
 Example spec_tables : tables_of false [] [[DTag [33;97;33] [120]]; []] = [Some [([33;97;33], [120])]; Some []]
                       /\ tables_of true [] [[DTag [33;97;33] [120]]; []] = [Some [([33;97;33], [120])]; Some [([33;97;33], [120])]].
 Proof. split; reflexivity. Qed.
+(* the witnesses of the former finding: "%C0%AF", "%E0%80%AF", "%F0%80%80%AF" are errors of the model (site 53),
+   and so is the whole stream "--- !e%C0%AF x" (scanner error at the tag) *)
+Example ex_overlong_rejected :
+  model_decodes [37;67;48;37;65;70] = None /\ model_decodes [37;69;48;37;56;48;37;65;70] = None
+  /\ model_decodes [37;70;48;37;56;48;37;56;48;37;65;70] = None /\ model_decodes [37;50;70] = Some 47.
+Proof. repeat split; vm_compute; reflexivity. Qed.
+Example ex_overlong_stream : tags_of_run false [45;45;45;32;33;101;37;67;48;37;65;70;32;120]
+  = ([], PScanErr 53 {| m_index := 4; m_line := 1; m_col := 4 |}).
+Proof. vm_compute. reflexivity. Qed.
 Example spec_overlong : utf8_decode [192; 175] = None /\ utf8_decode [224; 128; 175] = None.
 Proof. split; reflexivity. Qed.
 Example spec_surrogate : utf8_decode [237; 160; 128] = None /\ utf8_decode [244; 144; 128; 128] = None.
